@@ -224,6 +224,10 @@ def run_history(P):
                         H["futures"][uid] = {"outcome": "pending", "callbacks": 0, "kind": "record", "tp": p,
                                              "t_acc": loop.time() - t0}
                         fut.add_done_callback(lambda f, u=uid: on_done(u, f))
+                        if P.get("app_cancels_records") and trng.random() < 0.15:
+                            # same for the future of a single record (wait_for(fut, t) timing out cancels it)
+                            H["futures"][uid]["app_cancelled"] = True
+                            loop.call_later(trng.choice([0.0, 0.002, 0.05, 0.3]), fut.cancel)
                         k += 1
                         sent_so_far["n"] += 1
                     if P["end_at_frac"] is not None and not end_trigger.done() \
